@@ -207,3 +207,11 @@ Definition ev_known (c : world) (e : ev) : bool :=
 (* a history: every event is dispatched when it happens *)
 Definition run_events (c : world) (es : list ev) : list lcall := flat_map (dispatch_ev c) es.
 Definition spec_events (c : world) (es : list ev) : list lcall := flat_map (spec_ev c) es.
+
+(* a history with re-configuration (set_listener between events): every event is dispatched with the
+   configuration in force when it happens (set_*_listener stores listener_sender and listener_mask,
+   reader_methods.rs:515-517 and its four siblings; the chains read exactly these two fields) *)
+Definition run_history (h : list (world * ev)) : list lcall :=
+  flat_map (fun we => dispatch_ev (fst we) (snd we)) h.
+Definition spec_history (h : list (world * ev)) : list lcall :=
+  flat_map (fun we => spec_ev (fst we) (snd we)) h.
